@@ -12,6 +12,7 @@ import (
 	"io"
 	"runtime"
 	"sort"
+	"strings"
 	"sync"
 	"sync/atomic"
 	"time"
@@ -30,8 +31,11 @@ type ConcScenario struct {
 	Feats   []string `json:"feats"`   // what the entries carry: peer, check, gcheck, rcheck, gname, opt, tags, dcheck
 	Defects []string `json:"defects"` // dangling_peer, weight_low, limit_low, role_b, missing_mandatory, too_many_tags, range, dangling_gname
 	Running bool     `json:"running"` // a first transaction puts half of the entries on the device (running store)
-	Reps    int      `json:"reps"`
-	Procs   []int    `json:"procs"`
+	// Replace: all entries are on the device; the verdict is the one of a REPLACE intent that keeps three quarters of them
+	// (the replace flow does not preload running: what the kept entries refer to is loaded on demand during validation)
+	Replace bool  `json:"replace"`
+	Reps    int   `json:"reps"`
+	Procs   []int `json:"procs"`
 }
 
 type ConcEvent struct {
@@ -40,6 +44,7 @@ type ConcEvent struct {
 	N        int      `json:"n"`
 	Feats    []string `json:"feats"`
 	Defects  []string `json:"defects"`
+	Replace  bool     `json:"replace"`
 	Mode     string   `json:"mode"` // seq | conc
 	Procs    int      `json:"procs"`
 	Rep      int      `json:"rep"`
@@ -231,7 +236,27 @@ func (r *ConcRunner) Run(sc *ConcScenario) error {
 		if err != nil {
 			return nil, err
 		}
-		if sc.Running && sc.N >= 2 {
+		if sc.Replace {
+			base := &ConcScenario{N: sc.N, Feats: []string{"peer", "tags", "opt", "rcheck"}}
+			req := &sdcpb.TransactionIntent{Intent: "A", Priority: 10, Update: base.updates(0, sc.N)}
+			ti, err := ds.D.SdcpbTransactionIntentToInternalTI(ctx, req)
+			if err != nil {
+				return nil, err
+			}
+			resp, err := ds.D.TransactionSet(ctx, "base", []*types.TransactionIntent{ti}, nil, 30*time.Second, false)
+			if err != nil {
+				return nil, err
+			}
+			if hasErrors(resp) {
+				return nil, fmt.Errorf("base transaction of the replace scenario is invalid: %v", resp.GetIntents())
+			}
+			if err := ds.D.TransactionConfirm(ctx, "base"); err != nil {
+				return nil, err
+			}
+			if err := ds.SyncMirror(ctx); err != nil {
+				return nil, err
+			}
+		} else if sc.Running && sc.N >= 2 {
 			// half of the entries are on the device already (valid content only: no defects in the first half is not guaranteed,
 			// so this transaction is applied with validation switched off by construction: it carries ids only)
 			req := &sdcpb.TransactionIntent{Intent: "base", Priority: 20}
@@ -255,11 +280,17 @@ func (r *ConcRunner) Run(sc *ConcScenario) error {
 		return ds, nil
 	}
 	run := func(ds *env.DS, mode string, procs, rep int) error {
-		ev := &ConcEvent{Ev: "verdict", B: sc.ID, N: sc.N, Feats: sc.Feats, Defects: sc.Defects, Mode: mode, Procs: procs, Rep: rep}
+		ev := &ConcEvent{Ev: "verdict", B: sc.ID, N: sc.N, Feats: sc.Feats, Defects: sc.Defects, Replace: sc.Replace, Mode: mode, Procs: procs, Rep: rep}
 		runtime.GOMAXPROCS(procs)
 		cctx, cancel := context.WithTimeout(ctx, 60*time.Second)
 		defer cancel()
 		req := &sdcpb.TransactionIntent{Intent: "A", Priority: 10, Update: sc.updates(0, sc.N)}
+		if sc.Replace {
+			// keep three quarters of the entries (their peers partly exist on the device only) and make sure the
+			// replace is refused, so that the state stays the same for every run
+			req = &sdcpb.TransactionIntent{Intent: "replace", Priority: 10, Update: sc.updates(0, sc.N*3/4)}
+			req.Update = append(req.Update, &sdcpb.Update{Path: concPath("n000", "weight"), Value: sv("11")})
+		}
 		ti, err := ds.D.SdcpbTransactionIntentToInternalTI(cctx, req)
 		if err != nil {
 			ev.Ret = "error"
@@ -269,9 +300,25 @@ func (r *ConcRunner) Run(sc *ConcScenario) error {
 		gate.paired.Store(0)
 		gate.overwrites.Store(0)
 		gate.on.Store(mode == "conc" && rep%2 == 1) // every second repetition runs under the adversarial gate
-		resp, err := ds.D.TransactionSet(cctx, fmt.Sprintf("%s-%s-%d-%d", sc.ID, mode, procs, rep), []*types.TransactionIntent{ti}, nil, 30*time.Second, true)
+		var resp *sdcpb.TransactionSetResponse
+		if sc.Replace {
+			resp, err = ds.D.TransactionSet(cctx, fmt.Sprintf("%s-%s-%d-%d", sc.ID, mode, procs, rep), nil, ti, 30*time.Second, true)
+		} else {
+			resp, err = ds.D.TransactionSet(cctx, fmt.Sprintf("%s-%s-%d-%d", sc.ID, mode, procs, rep), []*types.TransactionIntent{ti}, nil, 30*time.Second, true)
+		}
 		gate.on.Store(false)
 		ev.Paired, ev.Overwrites = int(gate.paired.Load()), int(gate.overwrites.Load())
+		if err != nil && sc.Replace {
+			// the verdict of a refused replace intent is the joined list of its validation errors
+			ev.Ret = "refused"
+			for _, line := range strings.Split(err.Error(), "\n") {
+				if strings.TrimSpace(line) != "" {
+					ev.Errors = append(ev.Errors, strings.TrimSpace(line))
+				}
+			}
+			sort.Strings(ev.Errors)
+			return r.emit(ev)
+		}
 		if err != nil {
 			ev.Ret = "error"
 			ev.Errors = []string{err.Error()}
